@@ -226,8 +226,10 @@ pub(crate) fn lehmer_step(x: &mut [Word], y: &mut [Word], a: Word, b: Word, c: W
 #[inline]
 pub fn memory_requirement_up_to(lhs_len: usize, rhs_len: usize) -> Layout {
     // Required memory:
-    // - temporary space for the division in the euclidean step
-    div::memory_requirement_exact(lhs_len, rhs_len)
+    // - temporary space for the divisions in the euclidean steps: every later divisor has
+    //   at most rhs_len words, but its quotient can be longer than lhs_len - rhs_len words,
+    //   so the smaller factor of the products in a division is only bounded by rhs_len / 2
+    mul::memory_requirement_up_to(lhs_len, rhs_len / 2)
 }
 
 pub(crate) fn gcd_in_place(
